@@ -109,6 +109,17 @@ def special_docs():
             out.append((" " * k + "-" + t + "a\n" + " " * k + t + "b\n").encode())
             out.append((" " * (k % 4) + ">" + t + "a\n>" + t + t + "b\n").encode())
             out.append((" " * (k % 4) + "1." + t + "a\n\n" + t + "b\n").encode())
+    # BLK-1 / INL-2 (repaired): a reference-only paragraph removed after its list was closed by add_child; a title
+    # whose line is given back to the paragraph
+    for closer in ("# h", "* b", "1. b", "> q", "```", "---", "<div>"):
+        out.append(("- a\n\n  [x]: y\n" + closer + "\n").encode())
+        out.append(("- a\n\n  [x]: y\n  [z]: w\n" + closer + "\n").encode())
+        out.append(("- a\n\n  [x]: y\n  c\n" + closer + "\n").encode())
+        out.append(("- a\n- b\n\n  [x]: y\n" + closer + "\n").encode())
+        out.append(("- a\n  - b\n\n    [x]: y\n" + closer + "\n").encode())
+        out.append(("> - a\n>\n>   [x]: y\n> " + closer + "\n").encode())
+    out.append(b'[a]: /u\n"t" junk\n\n[a]\n')
+    out.append(b"[a]: /u\n't' junk\n[b]: /v\n(t)\n")
     return out
 
 
